@@ -6,7 +6,7 @@
    definitions with the behaviour of the code before those repairs.
    V is the abstract value type with the two constants the code uses (0 and 50 ohm). *)
 Require Import List ZArith.
-Require Import LV.Data.DataModel LV.Data.ArraySpec LV.Data.DataProofs.
+Require Import LV.Data.DataModel LV.Data.ArraySpec LV.Data.DataProofs LV.Data.RefineProofs.
 Import ListNotations.
 
 Section C15.
@@ -51,45 +51,28 @@ Theorem c15_resize_exposes_initial : forall Q d t r c f,
   (forall i j, i < freqs V d -> i < freqs V d' -> j < cells V d -> j < cells V d' -> dat V d' i j = dat V d i j).
 Proof. exact (resize_exposes_initial V vzero vdef). Qed.
 
-(* Refinement to the abstract array of ArraySpec (partial: stated for resize, for the four
-   value getters and for the cell setter; the remaining setters are point / row updates of the
-   same shape and the vector getters are maps of the value getters - not restated here). *)
-Theorem c15_data_refines_array_resize_partial : forall Q d t r c f,
-  Inv d -> o_ret V (snd (resize V vzero vdef Q d t r c f)) = ROk ->
-  exists t', vpt_of_Z t = Some t' /\
-    arr_eq V (abs V (fst (resize V vzero vdef Q d t r c f)))
-             (spec_resize V vzero vdef (abs V d) t' (Z.to_nat r) (Z.to_nat c) (Z.to_nat f)).
-Proof. exact (refine_resize V vzero vdef). Qed.
+(* Refinement to the abstract array of ArraySpec (the documented behaviour, no allocations):
+   forward simulation for EVERY operation - from related states the model and the specification
+   produce the same outcome (return class, callbacks, payload) and related states ... *)
+Theorem c15_data_refines_array_step : forall d a o,
+  Inv d -> refines V d a -> sim V vzero vdef d a o.
+Proof. exact (sim_step V vzero vdef). Qed.
+
+(* ... hence for every operation history from vnadata_alloc every getter returns, and every call
+   reports, exactly what the abstract array predicts. *)
+Theorem c15_data_refines_array : forall l,
+  trace V vzero vdef (vd_alloc V vzero vdef) l = spec_trace V vzero vdef (arr_alloc V vzero vdef) l.
+Proof. exact (data_refines_array V vzero vdef). Qed.
+
+(* Two objects with equal logical contents cannot be told apart by any later history, whatever
+   their allocation histories (shrink/regrow, conversions, ...). *)
+Theorem c15_indistinguishable : forall d1 d2 l,
+  Inv d1 -> Inv d2 -> arr_eq V (abs V d1) (abs V d2) -> trace V vzero vdef d1 l = trace V vzero vdef d2 l.
+Proof. exact (indistinguishable V vzero vdef). Qed.
 
 Theorem c15_resize_rejected_unchanged : forall Q d t r c f,
   o_ret V (snd (resize V vzero vdef Q d t r c f)) <> ROk -> fst (resize V vzero vdef Q d t r c f) = d.
-Proof. exact (refine_resize_fail V vzero vdef). Qed.
-
-Theorem c15_data_refines_array_get_cell : forall d f r c,
-  Inv d -> stepf d (OGetCell V f r c) = (d, out_of V (spec_get_cell V (abs V d) f r c)).
-Proof. exact (refine_get_cell V vzero vdef). Qed.
-
-Theorem c15_data_refines_array_get_frequency : forall d i,
-  Inv d -> stepf d (OGetFreq V i) =
-           (d, match spec_get_frequency V (abs V d) i with Some x => okp V (PFreq x) | None => fail V end).
-Proof. exact (refine_get_frequency V vzero vdef). Qed.
-
-Theorem c15_data_refines_array_get_z0 : forall d p,
-  Inv d -> stepf d (OGetZ0 V p) = (d, out_of V (spec_get_z0 V (abs V d) p)).
-Proof. exact (refine_get_z0 V vzero vdef). Qed.
-
-Theorem c15_data_refines_array_get_fz0 : forall d f p,
-  Inv d -> stepf d (OGetFz0 V f p) = (d, out_of V (spec_get_fz0 V (abs V d) f p)).
-Proof. exact (refine_get_fz0 V vzero vdef). Qed.
-
-Theorem c15_data_refines_array_set_cell : forall d f r c v,
-  Inv d ->
-  match spec_set_cell V (abs V d) f r c v with
-  | Some a' => snd (stepf d (OSetCell V f r c v)) = ok V /\
-               arr_eq V (abs V (fst (stepf d (OSetCell V f r c v)))) a'
-  | None => stepf d (OSetCell V f r c v) = (d, fail V)
-  end.
-Proof. exact (refine_set_cell V vzero vdef). Qed.
+Proof. exact (resize_rejected_unchanged V vzero vdef). Qed.
 
 (* z0 mode rules of vnadata(3). *)
 Theorem c15_fz0_mode_rules_set_z0 : forall d p v,
@@ -156,13 +139,10 @@ Print Assumptions c15_inv_reachable.
 Print Assumptions c15_no_fault.
 Print Assumptions c15_index_n_refused.
 Print Assumptions c15_resize_exposes_initial.
-Print Assumptions c15_data_refines_array_resize_partial.
+Print Assumptions c15_data_refines_array_step.
+Print Assumptions c15_data_refines_array.
+Print Assumptions c15_indistinguishable.
 Print Assumptions c15_resize_rejected_unchanged.
-Print Assumptions c15_data_refines_array_get_cell.
-Print Assumptions c15_data_refines_array_get_frequency.
-Print Assumptions c15_data_refines_array_get_z0.
-Print Assumptions c15_data_refines_array_get_fz0.
-Print Assumptions c15_data_refines_array_set_cell.
 Print Assumptions c15_fz0_mode_rules_set_z0.
 Print Assumptions c15_fz0_mode_rules_set_fz0.
 Print Assumptions c15_fz0_mode_rules_getters.
